@@ -206,7 +206,7 @@ func (e StdEng) Dot(x, y Tensor, opts ...FuncOpt) (retVal Tensor, err error) {
 		switch {
 		case b.IsVector():
 			// check size
-			if a.len() != b.len() {
+			if a.Size() != b.Size() {
 				err = errors.Errorf(shapeMismatch, a.Shape(), b.Shape())
 				return
 			}
@@ -389,6 +389,7 @@ func (e StdEng) Inner(a, b Tensor) (retVal interface{}, err error) {
 	if ad, bd, err = e.checkTwoFloatComplexTensors(a, b); err != nil {
 		return nil, errors.Wrapf(err, opFail, "StdEng.Inner")
 	}
+	ad, bd = blasOperand(ad), blasOperand(bd)
 
 	switch A := ad.Data().(type) {
 	case []float32:
@@ -417,12 +418,13 @@ func (e StdEng) MatVecMul(a, b, prealloc Tensor) (err error) {
 	if ad, bd, pd, err = e.checkThreeFloatComplexTensors(a, b, prealloc); err != nil {
 		return errors.Wrapf(err, opFail, "StdEng.MatVecMul")
 	}
+	ad, bd = blasOperand(ad), blasOperand(bd)
 
 	m := ad.oshape()[0]
 	n := ad.oshape()[1]
 
 	tA := blas.NoTrans
-	do := a.DataOrder()
+	do := ad.DataOrder()
 	z := ad.oldAP().IsZero()
 
 	var lda int
@@ -489,9 +491,10 @@ func (e StdEng) MatMul(a, b, prealloc Tensor) (err error) {
 	if ad, bd, pd, err = e.checkThreeFloatComplexTensors(a, b, prealloc); err != nil {
 		return errors.Wrapf(err, opFail, "StdEng.MatMul")
 	}
+	ad, bd = blasOperand(ad), blasOperand(bd)
 
-	ado := a.DataOrder()
-	bdo := b.DataOrder()
+	ado := ad.DataOrder()
+	bdo := bd.DataOrder()
 	cdo := prealloc.DataOrder()
 
 	// get result shapes. k is the shared dimension
@@ -635,6 +638,7 @@ func (e StdEng) Outer(a, b, prealloc Tensor) (err error) {
 		lda = pd.Shape()[1]
 	}
 
+	ad, bd = blasOperand(ad), blasOperand(bd)
 	switch x := ad.Data().(type) {
 	case []float64:
 		y := bd.Float64s()
@@ -663,6 +667,22 @@ func (e StdEng) Outer(a, b, prealloc Tensor) (err error) {
 }
 
 /* UNEXPORTED UTILITY FUNCTIONS */
+
+// blasOperand returns the tensor whose storage is handed to BLAS for t. The leading dimensions and the increments
+// of the BLAS calls are derived from the shape of the operand, so its storage has to be contiguous. That is the
+// case for t itself (in either data order, with or without a pending transpose) unless t is a non-contiguous
+// view - a column range, a stepped slice, a column of a matrix: then a contiguous copy of t is returned.
+func blasOperand(t DenseTensor) DenseTensor {
+	if t.DataOrder().IsContiguous() {
+		return t
+	}
+	retVal := recycledDense(t.Dtype(), t.Shape().Clone(), WithEngine(t.Engine()))
+	if t.DataOrder().IsColMajor() {
+		AsFortran(nil)(retVal)
+	}
+	copyDenseIter(retVal, t, nil, nil)
+	return retVal
+}
 
 func (e StdEng) checkTwoFloatTensors(a, b Tensor) (ad, bd DenseTensor, err error) {
 	if err = e.checkAccessible(a); err != nil {
